@@ -131,8 +131,8 @@ def build_update(rng, codec, role):
 class Prop:
     pid = 'C05'
     props_file = 'Props/C05.v'
-    required_theorems = ['bad_update_installs_nothing_partial', 'bad_update_leaves_no_route_partial',
-                         'withdrawals_survive_errors', 'ibgp_only_attrs_dropped_from_external']
+    required_theorems = ['bad_update_installs_nothing', 'bad_update_leaves_no_route', 'withdrawals_survive_errors',
+                         'reset_only_if_nlri_unlocatable', 'parsed_update_is_locatable', 'ibgp_only_attrs_dropped_from_external']
     correspondence_name = ('Model/Validate.v validate_update (on Model/Wire*.v try_parse) vs packet/src/bgp.rs '
                            'validate_message(PeerCodec::try_parse(bytes), is_ebgp) (harness/hx-packet kind 3, debug and release)')
     rule = ('a case is (codec, peer role, one UPDATE frame built valid and then corrupted: any subset of attributes in one of '
@@ -142,9 +142,11 @@ class Prop:
             'kinds of validated messages)')
     exhaustive = {'quick': False, 'thorough': False}
     trusted_base = ['Spec/Rfc7606.v reuses the NLRI field decoders of Model/WireNlri.v to list the announced/withdrawn prefixes (NLRI syntax is C03); '
-                    'its attribute walk, flag/length/value rules and mandatory-attribute rule are independent of the model',
+                    'its attribute walk, flag/length/value rules, mandatory-attribute rule and MP-attribute structure are independent of the model; '
+                    'that the parser model agrees with it is proved (Proofs/Rfc7606.v), and the same verdict is also evaluated on every generated frame and '
+                    'used to judge the real crate\'s output',
                     'the is_ebgp argument is computed from the peer role in PeerSession::run_select; that one-line mapping is covered by a unit test in the repository '
-                    '(received_from_external_peer), not by this correspondence run',
+                    '(received_from_external_peer_by_role), not by this correspondence run',
                     'PeerSession::rx_update (loop detection, default LOCAL_PREF injection, prefix limits) is abstracted to insert/remove per NLRI (Model/Validate.v apply_vmsg)']
     assumptions = ['the families whose NLRI decoders are not modelled do not occur in the generated codecs',
                    'syntax of AIGP, PREFIX_SID, BGP-LS and TUNNEL_ENCAP values is not judged (the receive path stores them as bytes)']
